@@ -26,13 +26,19 @@ pub fn judge(rep: &mut Report, r: &mut Rng, dir: &std::path::Path, p: &Project, 
     // a panic or an exhausted step budget inside the library is C02's finding; the binary can only do the same
     if let Err(Applied::Abort(sig)) = &expected { let pj = p.json(); rep.abort(sig.clone(), || json!({"project": pj})); return }
     // (1) run
-    let mut args = vec!["run", "-r", "r.rsca", "-w", "w.wsca", "-o", "out.wsca"]; if has_alias { args.extend(["-l", "a.alias"]); }
+    // short or long flags; the output named as a file or as a directory (asca then writes out.wsca into it)
+    let long = r.chance(1, 3); let to_dir = r.chance(1, 4);
+    if to_dir { std::fs::create_dir_all(dir.join("outd")).ok(); }
+    let out_arg = if to_dir { "outd" } else { "out.wsca" };
+    let out_path = if to_dir { dir.join("outd").join("out.wsca") } else { dir.join("out.wsca") };
+    let mut args = if long { vec!["run", "--rules", "r.rsca", "--words", "w.wsca", "--output", out_arg] } else { vec!["run", "-r", "r.rsca", "-w", "w.wsca", "-o", out_arg] };
+    if has_alias { args.extend([if long { "--alias" } else { "-l" }, "a.alias"]); }
     let ran = run_asca(dir, &args);
     if ran.timed_out { rep.obs("watchdog_inconclusive", 1); return }
     if ran.code != Some(0) { fail(rep, "run:exit-status", p, &files, json!({"code": ran.code, "stderr": ran.stderr, "stdout": ran.stdout})); return }
     match &expected {
         Ok(exp) => {
-            let got = std::fs::read_to_string(dir.join("out.wsca"));
+            let got = std::fs::read_to_string(&out_path);
             let Ok(got) = got else { fail(rep, "run:no-output-file", p, &files, json!({"stdout": ran.stdout})); return };
             if got != exp.join("\n") { fail(rep, "run:output-file-differs-from-library", p, &files, json!({"expected": exp, "observed": got.split('\n').collect::<Vec<_>>()})); return }
             // stdout pairs
@@ -42,7 +48,7 @@ pub fn judge(rep: &mut Report, r: &mut Rng, dir: &std::path::Path, p: &Project, 
             if pairs != exp_pairs { fail(rep, "run:stdout-pairs-differ", p, &files, json!({"expected": exp_pairs, "observed": pairs})); return }
             if *exp != words { rep.nontrivial(hash64(&(&rs, &ws, &al))); if rep.samples.len() < 3 { let v = json!({"files": files, "out.wsca": got}); rep.sample(|| v); } }
         }
-        Err(_) => { if dir.join("out.wsca").exists() { fail(rep, "run:wrote-a-file-although-the-library-errors", p, &files, json!({"stdout": ran.stdout})); return } rep.obs("library_error_projects", 1); }
+        Err(_) => { if out_path.exists() { fail(rep, "run:wrote-a-file-although-the-library-errors", p, &files, json!({"stdout": ran.stdout})); return } rep.obs("library_error_projects", 1); }
     }
     // (2) run -j
     std::fs::write(dir.join("model.json"), serde_json::to_string_pretty(&p.json()).unwrap()).ok();
